@@ -58,36 +58,77 @@ def replay (c : Cfg) : St → List (Ev × String) → Nat → Except String St
     | some s' => replay c s' es (k + 1)
     | none => .error s!"rejected@{k}:{txt}"
 
+/-- key of pool `j`: the plain key for a single pool, `key.j` when the engine runs several -/
+def pkey (pools j : Nat) (k : String) : String := if pools ≤ 1 then k else s!"{k}.{j}"
+
+/-- input value for pool `j`: `key.j` overrides `key` -/
+def inKey (kv : List (String × String)) (j : Nat) (k : String) : String :=
+  match lookup kv s!"{k}.{j}" with
+  | some v => v
+  | none => getS kv k
+
+structure PoolRes where
+  cfg : Cfg
+  cnt : Counters
+  err : Option String    -- why the log is not a run of the model
+  st : Option St
+
+def poolOf (kv o : List (String × String)) (pools j : Nat) : Option PoolRes :=
+  let g := fun k => getS o (pkey pools j k)
+  let ammo : Option Nat := match (inKey kv j "ammo").toInt? with
+    | some a => if a < 0 then none else some a.toNat
+    | none => none
+  let c : Cfg := { perInstance := inKey kv j "shared" == "0", tokens := (g "exact").toNat?.getD 0, ammo := ammo,
+                   discardOn := inKey kv j "discard" == "1",
+                   instances := (g "cap").toNat?.getD ((inKey kv j "inst").toNat?.getD 0) }
+  match (splitList (g "log")).mapM (fun t => (parseEv t).map (·, t)) with
+  | none => none
+  | some evs =>
+    let cnt (p : Ev → Bool) := (evs.filter (fun e => p e.1)).length
+    let r := replay c (init c) evs 0
+    let st := match r with | .ok s => some s | .error _ => none
+    -- a single pool: InstanceStart is this pool's; several pools: the instances seen in this pool's log
+    let seen := (evs.map (fun e => evInst e.1)).foldl (fun m i => max m (i + 1)) 0
+    let started := if pools ≤ 1 then (getN? o "started").getD 0 else seen
+    let k : Counters := {
+      started := started,
+      fired := cnt (fun | .shoot _ _ => true | _ => false), discarded := cnt (fun | .discard _ => true | _ => false),
+      acquired := cnt (fun | .acq _ => true | _ => false), released := cnt (fun | .rel _ _ => true | _ => false),
+      usedAfterRelease := g "uar" != "0", doubleRelease := g "dbl" != "0",
+      maxReleases := (g "relmax").toNat?.getD 0, minReleases := (g "relmin").toNat?.getD 1 }
+    let err := match r with
+      | .error e => some e
+      | .ok s =>
+        if !s.terminal then some "not-terminal"
+        else if s.started != seen then some s!"started-mismatch:model {s.started} log {seen}"
+        else if s.fired != k.fired || s.discarded != k.discarded then some "counter-mismatch"
+        else if s.badUse then some "bad-use"
+        else none
+    some { cfg := c, cnt := k, err := err, st := st }
+
 def handle : Handler := fun input impl =>
   let kv := parseKV input
   let o := parseKV impl
-  let ammo : Option Nat := match getI? kv "ammo" with
-    | some a => if a < 0 then none else some a.toNat
-    | none => none
-  let c : Cfg := { perInstance := getS kv "shared" == "0", tokens := (getN? o "exact").getD 0, ammo := ammo,
-                   discardOn := getS kv "discard" == "1", instances := (getN? o "cap").getD ((getN? kv "inst").getD 0) }
-  let evTxt := splitList (getS o "log")
-  match evTxt.mapM (fun t => (parseEv t).map (·, t)) with
+  if impl.startsWith "CRASH" || impl.startsWith "HANG" || impl.startsWith "PANIC" then
+    ("-", s!"fail:crash:the engine did not end: {impl.take 200}") else
+  if getS o "res" != "ok" then ("-", s!"fail:abnormal-end:{getS o "res"}") else
+  let pools := max 1 ((getN? kv "pools").getD 1)
+  match (List.range pools).mapM (poolOf kv o pools) with
   | none => ("-", s!"fail:crash:unparsable observation {impl.take 80}")
-  | some evs =>
-    if getS o "res" != "ok" then ("-", s!"fail:abnormal-end:{getS o "res"}") else
-    let cnt (p : Ev → Bool) := (evs.filter (fun e => p e.1)).length
-    let k : Counters := {
-      started := (getN? o "started").getD 0,
-      fired := cnt (fun | .shoot _ _ => true | _ => false), discarded := cnt (fun | .discard _ => true | _ => false),
-      acquired := cnt (fun | .acq _ => true | _ => false), released := cnt (fun | .rel _ _ => true | _ => false),
-      request := (getN? o "req").getD 0, response := (getN? o "resp").getD 0,
-      usedAfterRelease := getS o "uar" != "0", doubleRelease := getS o "dbl" != "0",
-      maxReleases := (getN? o "relmax").getD 0, minReleases := (getN? o "relmin").getD 1 }
-    let v := verdict c k
-    match replay c (init c) evs 0 with
-    | .error e => (e, v)
-    | .ok s =>
-      if !s.terminal then ("not-terminal", v)
-      else if s.started != k.started then (s!"started-mismatch:model {s.started} metric {k.started}", v)
-      else if s.fired != k.fired || s.discarded != k.discarded || s.request != k.request || s.response != k.response
-        then ("counter-mismatch", v)
-      else if s.badUse then ("bad-use", v)
+  | some prs =>
+    let req := (getN? o "req").getD 0
+    let resp := (getN? o "resp").getD 0
+    let v := verdict (prs.map fun p => (p.cfg, p.cnt)) req resp
+    match prs.findSome? (·.err) with
+    | some e => (e, v)
+    | none =>
+      -- the model's engine-wide counters: sums over the pools
+      let sts := prs.filterMap (·.st)
+      let mreq := (sts.map (·.request)).sum
+      let mresp := (sts.map (·.response)).sum
+      let mstarted := (sts.map (·.started)).sum
+      if mreq != req || mresp != resp then ("counter-mismatch", v)
+      else if mstarted != (getN? o "started").getD 0 then (s!"started-mismatch:model {mstarted} metric {getS o "started"}", v)
       else (impl, v)
 
 end Pandora.Drv.C03
